@@ -65,6 +65,23 @@ type Contract struct {
 	Iface    bool // contract of an interface method (behavioural subtyping)
 	Pure     bool // extern without effects: no frame, no allocation
 	Opaque   bool // module function deliberately treated as extern (body outside the subset)
+	GhostDo  []*GhostAssign
+	AtCalls  []*AtCall
+}
+
+// GhostAssign is a ghost statement executed at function entry: name[key] := value / name := value.
+type GhostAssign struct {
+	Name string
+	Key  *SExpr
+	Val  *SExpr
+	Text string
+}
+
+// AtCall is an assertion checked at every call of a callee whose name matches, with the callee's
+// parameter names bound to the actual arguments.
+type AtCall struct {
+	Clause *Clause
+	Callee string // method or function name, e.g. "SetPwm"
 }
 
 type PureFn struct {
@@ -109,7 +126,7 @@ var clauseKeywords = map[string]bool{
 	"func": true, "extern": true, "pure": true, "ghost": true, "props": true, "requires": true, "ensures": true,
 	"modifies": true, "loop": true, "invariant": true, "decreases": true, "nofatal": true, "overflow": true,
 	"let": true, "trusted": true, "returns": true, "fatal": true, "assume": true, "callback": true,
-	"lemma": true, "sentinel": true, "iface": true, "share": true, "effectfree": true, "opaque": true, "end": true,
+	"lemma": true, "sentinel": true, "iface": true, "share": true, "effectfree": true, "opaque": true, "end": true, "ghostdo": true, "atcall": true,
 }
 
 var labelRe = regexp.MustCompile(`^(requires|ensures|invariant|assume)\[([^\]]*)\]\s*(.*)$`)
@@ -159,6 +176,9 @@ func (cs *Contracts) parseFile(p *Program, pkgPath, file, src string) error {
 		}
 		if clauseKeywords[first] {
 			raws = append(raws, rawClause{kw: first, text: strings.TrimSpace(t[len(first):]), line: i + 1})
+			if first == "atcall" {
+				raws[len(raws)-1].text = strings.TrimSpace(t[len("atcall"):])
+			}
 			if first == "requires" || first == "ensures" || first == "invariant" || first == "assume" {
 				raws[len(raws)-1].text = t // keep keyword for label parsing
 			}
@@ -419,6 +439,54 @@ func (cs *Contracts) parseFile(p *Program, pkgPath, file, src string) error {
 			}
 			cur.Lets = append(cur.Lets, Param{Name: strings.TrimSpace(rc.text[:i])})
 			cur.LetExprs = append(cur.LetExprs, e)
+		case "ghostdo":
+			if cur == nil {
+				return fail(rc, "ghostdo outside func")
+			}
+			i := strings.Index(rc.text, ":=")
+			if i < 0 {
+				return fail(rc, "ghostdo NAME[KEY] := EXPR")
+			}
+			lhs, rhs := strings.TrimSpace(rc.text[:i]), strings.TrimSpace(rc.text[i+2:])
+			ga := &GhostAssign{Text: rc.text}
+			if j := strings.Index(lhs, "["); j >= 0 {
+				ga.Name = strings.TrimSpace(lhs[:j])
+				k, err := parseSpecExpr(strings.TrimSuffix(lhs[j+1:], "]"))
+				if err != nil {
+					return fail(rc, "%v", err)
+				}
+				ga.Key = k
+			} else {
+				ga.Name = lhs
+			}
+			v, err := parseSpecExpr(rhs)
+			if err != nil {
+				return fail(rc, "%v", err)
+			}
+			ga.Val = v
+			cur.GhostDo = append(cur.GhostDo, ga)
+		case "atcall":
+			if cur == nil {
+				return fail(rc, "atcall outside func")
+			}
+			// atcall[label] Callee: expr
+			t := rc.text
+			lbl := ""
+			if strings.HasPrefix(t, "[") {
+				j := strings.Index(t, "]")
+				lbl = t[1:j]
+				t = strings.TrimSpace(t[j+1:])
+			}
+			i := strings.Index(t, ":")
+			if i < 0 {
+				return fail(rc, "atcall[label] CALLEE: EXPR")
+			}
+			cl, err := mkClause(rawClause{kw: "ensures", text: "ensures[" + lbl + "] " + strings.TrimSpace(t[i+1:]), line: rc.line})
+			if err != nil {
+				return err
+			}
+			cl.Kind = "atcall"
+			cur.AtCalls = append(cur.AtCalls, &AtCall{Clause: cl, Callee: strings.TrimSpace(t[:i])})
 		case "end":
 			cur, curLoop, curLemma = nil, nil, nil
 		}
